@@ -34,6 +34,8 @@ type fakeServer struct {
 	delayMs int     // delay before every answer (C17 completion orders)
 	acted   func()  // invoked after a scripted action other than silence has been carried out
 	slowDial time.Duration // an accepted dial takes this long (a distant or busy server)
+	dialing  chan struct{} // when set: an accepted dial reports here that it has begun ...
+	dialGate chan struct{} // ... and completes when this is closed
 	ctrl    *bkCtrl // fail-backup schedules: every dial and every arriving request is reported, answers are held
 	wmu     sync.Mutex
 	byArg   map[string]string // when set: the action is chosen by the request's payload, not by arrival order
@@ -125,6 +127,13 @@ func init() {
 		}
 		if s.slowDial > 0 {
 			time.Sleep(s.slowDial)
+		}
+		if s.dialGate != nil {
+			select {
+			case s.dialing <- struct{}{}:
+			default:
+			}
+			<-s.dialGate
 		}
 		a, b := net.Pipe()
 		s.mu.Lock()
